@@ -118,13 +118,34 @@ impl<T> VxIo<T> for Result<T, std::io::Error> {
 // configuration field implies (k is a u16: 2k+30 centroids of 16 bytes and a buffer of 4 times as many f64)
 spec const TD_CONFIG_MAX: int = 6292800int;   // 48 * (2 * 65535 + 30)
 #[verifier::external_body]
-fn vx_alloc_centroids(n: usize, input_len: usize) -> (r: Vec<Centroid>)
+fn vx_alloc_raw_centroids(n: usize, input_len: usize) -> (r: Vec<Centroid>)
   requires /*@C14.td.alloc_bounded*/ n * 16 <= 16 * input_len + TD_CONFIG_MAX
   ensures r@.len() == 0
 { Vec::with_capacity(n) }
 #[verifier::external_body]
-fn vx_alloc_f64s(n: usize, input_len: usize) -> (r: Vec<f64>)
+fn vx_alloc_raw_f64s(n: usize, input_len: usize) -> (r: Vec<f64>)
   requires /*@C14.td.alloc_bounded*/ n * 8 <= 16 * input_len + TD_CONFIG_MAX
+  ensures r@.len() == 0
+{ Vec::with_capacity(n) }
+// Obligations that FAIL on the current /repo sit in thin verified shims around the offending call (not in the parser): the failure is a
+// quick definite one in a tiny context, and the parser verifies cleanly under the stated assumption.  When the parser is repaired
+// (the count validated before the call) the `requires` moves back to the call site.
+// `Vec::with_capacity(num_centroids)` in deserialize: num_centroids is an unvalidated u32 of the image
+fn vx_alloc_centroids(n: usize, input_len: usize) -> (r: Vec<Centroid>)
+  ensures r@.len() == 0
+{ vx_alloc_raw_centroids(n, input_len) }
+// `Vec::with_capacity(num_buffered)` in deserialize: num_buffered is an unvalidated u32 of the image
+fn vx_alloc_f64s(n: usize, input_len: usize) -> (r: Vec<f64>)
+  ensures r@.len() == 0
+{ vx_alloc_raw_f64s(n, input_len) }
+// `Vec::with_capacity(num_centroids)` in deserialize_compat, verbose encoding: num_centroids is an unvalidated i32 of the image
+fn vx_alloc_centroids_ref(n: usize, input_len: usize) -> (r: Vec<Centroid>)
+  ensures r@.len() == 0
+{ vx_alloc_raw_centroids(n, input_len) }
+// the same call in the small encoding: num_centroids is a u16, at most 65535 * 16 bytes <= TD_CONFIG_MAX (this one VERIFIES at the call site)
+#[verifier::external_body]
+fn vx_alloc_centroids_u16(n: usize) -> (r: Vec<Centroid>)
+  requires /*@C14.td.alloc_bounded*/ n * 16 <= TD_CONFIG_MAX
   ensures r@.len() == 0
 { Vec::with_capacity(n) }
 
@@ -182,27 +203,37 @@ struct SketchSlice<'a> {
 }
 
 impl SketchSlice<'_> {
-    uninterp spec fn rem(&self) -> Seq<u8>;
+    // the std Cursor is abstracted by the bytes it was created over and the read position (no Seq::skip/take chains: the parsers
+    // reason about plain offsets)
+    uninterp spec fn data(&self) -> Seq<u8>;
+    uninterp spec fn pos(&self) -> int;
+    spec fn inv(&self) -> bool { 0 <= self.pos() <= self.data().len() }
+    // a read of n bytes: succeeds iff they are there, then returns bytes [pos, pos+n) and advances
+    spec fn reads(pre: Self, post: Self, n: int) -> bool { post.data() == pre.data() && post.inv() && post.pos() == pre.pos() + n }
+    spec fn fails(pre: Self, post: Self) -> bool { post.data() == pre.data() && post.inv() }
+    spec fn next(&self, n: int) -> Seq<u8> { self.data().subrange(self.pos(), self.pos() + n) }
 
     #[verifier::external_body]
-    fn new(slice: &[u8]) -> (r: SketchSlice<'_>) ensures r.rem() == slice@ {
+    fn new(slice: &[u8]) -> (r: SketchSlice<'_>) ensures r.data() == slice@, r.pos() == 0, r.inv() {
         unimplemented!()
     }
 
     #[verifier::external_body]
     fn read_exact(&mut self, buf: &mut [u8]) -> (r: io::Result<()>)
+      requires old(self).inv()
       ensures
-        old(self).rem().len() >= old(buf)@.len() ==> (r is Ok && final(buf)@ == old(self).rem().take(old(buf)@.len() as int) && final(self).rem() == old(self).rem().skip(old(buf)@.len() as int)),
-        old(self).rem().len() < old(buf)@.len() ==> r is Err,
+        old(self).pos() + old(buf)@.len() <= old(self).data().len() ==> (r is Ok && final(buf)@ == old(self).next(old(buf)@.len() as int) && Self::reads(*old(self), *final(self), old(buf)@.len() as int)),
+        old(self).pos() + old(buf)@.len() > old(self).data().len() ==> r is Err && Self::fails(*old(self), *final(self)),
         final(buf)@.len() == old(buf)@.len(),
     {
         unimplemented!()
     }
 
     fn read_u8(&mut self) -> (r: io::Result<u8>)
+      requires old(self).inv()
       ensures
-        old(self).rem().len() >= 1 ==> (r matches Ok(v) && v == old(self).rem()[0] && final(self).rem() == old(self).rem().skip(1)),
-        old(self).rem().len() < 1 ==> r is Err,
+        old(self).pos() + 1 <= old(self).data().len() ==> (r matches Ok(v) && v == old(self).data()[old(self).pos()] && Self::reads(*old(self), *final(self), 1)),
+        old(self).pos() + 1 > old(self).data().len() ==> r is Err && Self::fails(*old(self), *final(self)),
     {
         let mut buf = [0u8; 1];
         self.read_exact(&mut buf)?;
@@ -210,9 +241,10 @@ impl SketchSlice<'_> {
     }
 
     fn read_u16_le(&mut self) -> (r: io::Result<u16>)
+      requires old(self).inv()
       ensures
-        old(self).rem().len() >= 2 ==> (r matches Ok(v) && v == le16_val(old(self).rem().take(2)) && final(self).rem() == old(self).rem().skip(2)),
-        old(self).rem().len() < 2 ==> r is Err,
+        old(self).pos() + 2 <= old(self).data().len() ==> (r matches Ok(v) && v == le16_val(old(self).next(2)) && Self::reads(*old(self), *final(self), 2)),
+        old(self).pos() + 2 > old(self).data().len() ==> r is Err && Self::fails(*old(self), *final(self)),
     {
         let mut buf = [0u8; 2];
         self.read_exact(&mut buf)?;
@@ -220,9 +252,10 @@ impl SketchSlice<'_> {
     }
 
     fn read_u16_be(&mut self) -> (r: io::Result<u16>)
+      requires old(self).inv()
       ensures
-        old(self).rem().len() >= 2 ==> (r matches Ok(v) && v == be16_val(old(self).rem().take(2)) && final(self).rem() == old(self).rem().skip(2)),
-        old(self).rem().len() < 2 ==> r is Err,
+        old(self).pos() + 2 <= old(self).data().len() ==> (r matches Ok(v) && v == be16_val(old(self).next(2)) && Self::reads(*old(self), *final(self), 2)),
+        old(self).pos() + 2 > old(self).data().len() ==> r is Err && Self::fails(*old(self), *final(self)),
     {
         let mut buf = [0u8; 2];
         self.read_exact(&mut buf)?;
@@ -230,9 +263,10 @@ impl SketchSlice<'_> {
     }
 
     fn read_u32_le(&mut self) -> (r: io::Result<u32>)
+      requires old(self).inv()
       ensures
-        old(self).rem().len() >= 4 ==> (r matches Ok(v) && v == le32_val(old(self).rem().take(4)) && final(self).rem() == old(self).rem().skip(4)),
-        old(self).rem().len() < 4 ==> r is Err,
+        old(self).pos() + 4 <= old(self).data().len() ==> (r matches Ok(v) && v == le32_val(old(self).next(4)) && Self::reads(*old(self), *final(self), 4)),
+        old(self).pos() + 4 > old(self).data().len() ==> r is Err && Self::fails(*old(self), *final(self)),
     {
         let mut buf = [0u8; 4];
         self.read_exact(&mut buf)?;
@@ -240,9 +274,10 @@ impl SketchSlice<'_> {
     }
 
     fn read_u32_be(&mut self) -> (r: io::Result<u32>)
+      requires old(self).inv()
       ensures
-        old(self).rem().len() >= 4 ==> (r matches Ok(v) && v == be32_val(old(self).rem().take(4)) && final(self).rem() == old(self).rem().skip(4)),
-        old(self).rem().len() < 4 ==> r is Err,
+        old(self).pos() + 4 <= old(self).data().len() ==> (r matches Ok(v) && v == be32_val(old(self).next(4)) && Self::reads(*old(self), *final(self), 4)),
+        old(self).pos() + 4 > old(self).data().len() ==> r is Err && Self::fails(*old(self), *final(self)),
     {
         let mut buf = [0u8; 4];
         self.read_exact(&mut buf)?;
@@ -250,9 +285,10 @@ impl SketchSlice<'_> {
     }
 
     fn read_u64_le(&mut self) -> (r: io::Result<u64>)
+      requires old(self).inv()
       ensures
-        old(self).rem().len() >= 8 ==> (r matches Ok(v) && v == le64_val(old(self).rem().take(8)) && final(self).rem() == old(self).rem().skip(8)),
-        old(self).rem().len() < 8 ==> r is Err,
+        old(self).pos() + 8 <= old(self).data().len() ==> (r matches Ok(v) && v == le64_val(old(self).next(8)) && Self::reads(*old(self), *final(self), 8)),
+        old(self).pos() + 8 > old(self).data().len() ==> r is Err && Self::fails(*old(self), *final(self)),
     {
         let mut buf = [0u8; 8];
         self.read_exact(&mut buf)?;
@@ -260,9 +296,10 @@ impl SketchSlice<'_> {
     }
 
     fn read_f32_le(&mut self) -> (r: io::Result<f32>)
+      requires old(self).inv()
       ensures
-        old(self).rem().len() >= 4 ==> (r matches Ok(v) && v == f32_of_bits(le32_val(old(self).rem().take(4))) && final(self).rem() == old(self).rem().skip(4)),
-        old(self).rem().len() < 4 ==> r is Err,
+        old(self).pos() + 4 <= old(self).data().len() ==> (r matches Ok(v) && v == f32_of_bits(le32_val(old(self).next(4))) && Self::reads(*old(self), *final(self), 4)),
+        old(self).pos() + 4 > old(self).data().len() ==> r is Err && Self::fails(*old(self), *final(self)),
     {
         let mut buf = [0u8; 4];
         self.read_exact(&mut buf)?;
@@ -270,9 +307,10 @@ impl SketchSlice<'_> {
     }
 
     fn read_f32_be(&mut self) -> (r: io::Result<f32>)
+      requires old(self).inv()
       ensures
-        old(self).rem().len() >= 4 ==> (r matches Ok(v) && v == f32_of_bits(be32_val(old(self).rem().take(4))) && final(self).rem() == old(self).rem().skip(4)),
-        old(self).rem().len() < 4 ==> r is Err,
+        old(self).pos() + 4 <= old(self).data().len() ==> (r matches Ok(v) && v == f32_of_bits(be32_val(old(self).next(4))) && Self::reads(*old(self), *final(self), 4)),
+        old(self).pos() + 4 > old(self).data().len() ==> r is Err && Self::fails(*old(self), *final(self)),
     {
         let mut buf = [0u8; 4];
         self.read_exact(&mut buf)?;
@@ -280,9 +318,10 @@ impl SketchSlice<'_> {
     }
 
     fn read_f64_le(&mut self) -> (r: io::Result<f64>)
+      requires old(self).inv()
       ensures
-        old(self).rem().len() >= 8 ==> (r matches Ok(v) && v == f64_of_bits(le64_val(old(self).rem().take(8))) && final(self).rem() == old(self).rem().skip(8)),
-        old(self).rem().len() < 8 ==> r is Err,
+        old(self).pos() + 8 <= old(self).data().len() ==> (r matches Ok(v) && v == f64_of_bits(le64_val(old(self).next(8))) && Self::reads(*old(self), *final(self), 8)),
+        old(self).pos() + 8 > old(self).data().len() ==> r is Err && Self::fails(*old(self), *final(self)),
     {
         let mut buf = [0u8; 8];
         self.read_exact(&mut buf)?;
@@ -290,9 +329,10 @@ impl SketchSlice<'_> {
     }
 
     fn read_f64_be(&mut self) -> (r: io::Result<f64>)
+      requires old(self).inv()
       ensures
-        old(self).rem().len() >= 8 ==> (r matches Ok(v) && v == f64_of_bits(be64_val(old(self).rem().take(8))) && final(self).rem() == old(self).rem().skip(8)),
-        old(self).rem().len() < 8 ==> r is Err,
+        old(self).pos() + 8 <= old(self).data().len() ==> (r matches Ok(v) && v == f64_of_bits(be64_val(old(self).next(8))) && Self::reads(*old(self), *final(self), 8)),
+        old(self).pos() + 8 > old(self).data().len() ==> r is Err && Self::fails(*old(self), *final(self)),
     {
         let mut buf = [0u8; 8];
         self.read_exact(&mut buf)?;
@@ -488,7 +528,7 @@ spec fn valid_td_image(b: Seq<u8>, is_f32: bool) -> bool {
     &&& !hdr_empty(b) && !hdr_single(b) ==> {
         &&& !bits_nan(dec_val(b, 16, is_f32)) && !bits_nan(dec_val(b, 16 + vs(is_f32), is_f32))
         &&& forall|i: int| 0 <= i < hdr_nc(b) ==> bits_finite(#[trigger] dec_cent(b, i, is_f32).0) && dec_cent(b, i, is_f32).1 != 0
-        &&& forall|j: int| 0 <= j < hdr_nb(b) ==> bits_finite(#[trigger] dec_buf(b, hdr_nb(b), is_f32)[j])
+        &&& forall|j: int| 0 <= j < hdr_nb(b) ==> bits_finite(#[trigger] dec_val(b, buf_off(b, j, is_f32), is_f32))
         &&& img_total(dec_td(b, is_f32)) <= u64::MAX
     }
 }
@@ -693,6 +733,7 @@ proof fn lemma_td_roundtrip(v: TdImg)
         assert(dec_cents(e, nc, false) =~= v.cents);
         assert forall|j: int| 0 <= j < nb implies #[trigger] dec_buf(e, nb, false)[j] == v.buf[j] by { lemma_multi_buf(v, j); }
         assert(dec_buf(e, nb, false) =~= v.buf);
+        assert forall|j: int| 0 <= j < nb implies bits_finite(#[trigger] dec_val(e, buf_off(e, j, false), false)) by { lemma_multi_buf(v, j); }
         assert(dec_td(e, false) == v);
         lemma_off_double(e, 0, nb);
         assert(valid_td_image(e, false));
@@ -735,15 +776,10 @@ proof fn lemma_ref_type_bytes(b: Seq<u8>)
 }
 // one centroid record of the image: where the two reads of iteration i land
 proof fn lemma_cent_off_step(b: Seq<u8>, i: int, is_f32: bool)
-  requires 0 <= i, cent_off(i, is_f32) <= b.len()
+  requires 0 <= i
   ensures
     cent_off(i + 1, is_f32) == cent_off(i, is_f32) + 2 * vs(is_f32), cent_off(i, is_f32) >= 0,
     i < hdr_nc(b) ==> cent_off(i + 1, is_f32) <= cent_off(hdr_nc(b), is_f32) <= buf_off(b, hdr_nb(b), is_f32),
-    b.skip(cent_off(i, is_f32)).len() == b.len() - cent_off(i, is_f32),
-    cent_off(i, is_f32) + vs(is_f32) <= b.len() ==> b.skip(cent_off(i, is_f32)).take(vs(is_f32)) == b.subrange(cent_off(i, is_f32), cent_off(i, is_f32) + vs(is_f32))
-        && b.skip(cent_off(i, is_f32)).skip(vs(is_f32)) == b.skip(cent_off(i, is_f32) + vs(is_f32)) && b.skip(cent_off(i, is_f32) + vs(is_f32)).len() == b.len() - cent_off(i, is_f32) - vs(is_f32),
-    cent_off(i + 1, is_f32) <= b.len() ==> b.skip(cent_off(i, is_f32) + vs(is_f32)).take(vs(is_f32)) == b.subrange(cent_off(i, is_f32) + vs(is_f32), cent_off(i + 1, is_f32))
-        && b.skip(cent_off(i, is_f32) + vs(is_f32)).skip(vs(is_f32)) == b.skip(cent_off(i + 1, is_f32)),
 {
     reveal(cent_off); reveal(buf_off);
     let o = cent_off(i, is_f32); let n = vs(is_f32);
@@ -754,9 +790,6 @@ proof fn lemma_cent_off_step(b: Seq<u8>, i: int, is_f32: bool)
           requires cent_off(i + 1, is_f32) == 16 + 2 * n + (i + 1) * (2 * n), cent_off(hdr_nc(b), is_f32) == 16 + 2 * n + hdr_nc(b) * (2 * n), i + 1 <= hdr_nc(b), n >= 4;
         assert(hdr_nb(b) * n >= 0) by (nonlinear_arith) requires hdr_nb(b) >= 0, n >= 4;
     }
-    assert(b.skip(o).len() == b.len() - o);
-    if o + n <= b.len() { lemma_skip_take(b, o, n); }
-    if o + 2 * n <= b.len() { lemma_skip_take(b, o + n, n); }
 }
 
 proof fn lemma_off_zero(b: Seq<u8>, is_f32: bool)
@@ -777,14 +810,14 @@ proof fn lemma_cents_view_push(cs0: Seq<Centroid>, c: Centroid, b: Seq<u8>, i: i
     }
     assert(cents_view(cs0.push(c)) =~= dec_cents(b, i + 1, is_f32));
 }
-proof fn lemma_buf_view_push(s0: Seq<f64>, x: f64, d: Seq<u64>, j: int)
-  requires buf_view(s0) == d.take(j), s0.len() == j, 0 <= j < d.len(), f64_bits(x) == d[j]
-  ensures buf_view(s0.push(x)) == d.take(j + 1)
+proof fn lemma_buf_view_push(s0: Seq<f64>, x: f64, b: Seq<u8>, j: int, is_f32: bool)
+  requires buf_view(s0) == dec_buf(b, j, is_f32), s0.len() == j, 0 <= j, f64_bits(x) == dec_val(b, buf_off(b, j, is_f32), is_f32)
+  ensures buf_view(s0.push(x)) == dec_buf(b, j + 1, is_f32)
 {
-    assert forall|i: int| 0 <= i < j + 1 implies buf_view(s0.push(x))[i] == d.take(j + 1)[i] by {
-        if i < j { assert(buf_view(s0)[i] == d.take(j)[i]); }
+    assert forall|i: int| 0 <= i < j + 1 implies buf_view(s0.push(x))[i] == dec_buf(b, j + 1, is_f32)[i] by {
+        if i < j { assert(buf_view(s0)[i] == dec_buf(b, j, is_f32)[i]); } else { assert(s0.push(x)[j] == x); }
     }
-    assert(buf_view(s0.push(x)) =~= d.take(j + 1));
+    assert(buf_view(s0.push(x)) =~= dec_buf(b, j + 1, is_f32));
 }
 
 proof fn lemma_refv_push(cs0: Seq<Centroid>, c: Centroid, b: Seq<u8>, i: int)
@@ -806,13 +839,10 @@ proof fn lemma_refs_push(cs0: Seq<Centroid>, c: Centroid, b: Seq<u8>, i: int)
     assert(cents_view(cs0.push(c)) =~= refs_cents(b, i + 1));
 }
 proof fn lemma_buf_off_step(b: Seq<u8>, j: int, is_f32: bool)
-  requires 0 <= j, 0 <= buf_off(b, j, is_f32) <= b.len()
+  requires 0 <= j
   ensures
     buf_off(b, j + 1, is_f32) == buf_off(b, j, is_f32) + vs(is_f32),
     j < hdr_nb(b) ==> buf_off(b, j + 1, is_f32) <= buf_off(b, hdr_nb(b), is_f32),
-    b.skip(buf_off(b, j, is_f32)).len() == b.len() - buf_off(b, j, is_f32),
-    buf_off(b, j + 1, is_f32) <= b.len() ==> b.skip(buf_off(b, j, is_f32)).take(vs(is_f32)) == b.subrange(buf_off(b, j, is_f32), buf_off(b, j + 1, is_f32))
-        && b.skip(buf_off(b, j, is_f32)).skip(vs(is_f32)) == b.skip(buf_off(b, j + 1, is_f32)),
 {
     reveal(buf_off);
     let o = buf_off(b, j, is_f32); let n = vs(is_f32); let c = cent_off(hdr_nc(b), is_f32);
@@ -821,7 +851,6 @@ proof fn lemma_buf_off_step(b: Seq<u8>, j: int, is_f32: bool)
         assert(buf_off(b, j + 1, is_f32) <= buf_off(b, hdr_nb(b), is_f32)) by (nonlinear_arith)
           requires buf_off(b, j + 1, is_f32) == c + (j + 1) * n, buf_off(b, hdr_nb(b), is_f32) == c + hdr_nb(b) * n, j + 1 <= hdr_nb(b), n >= 4;
     }
-    if o + n <= b.len() { lemma_skip_take(b, o, n); }
 }
 
 proof fn lemma_single_centroid(cs: Seq<Centroid>)
@@ -1129,12 +1158,6 @@ impl TDigestMut {
         /*@C14.td.values_checked*/ r matches Ok(a) ==> a.values_checked(),
         /*@C14.td.wf_cfg*/ r matches Ok(a) ==> a.cfg_ok(),
         /*@C14.td.wf_weight_sum*/ r matches Ok(a) ==> a.wf_weight_sum(),
-        /*@C14.td.wf_total_fits*/ r matches Ok(a) ==> a.wf_total_fits(),
-        /*@C14.td.wf_buffer_bound*/ r matches Ok(a) ==> a.wf_buffer_bound(),
-        /*@C14.td.wf_empty*/ r matches Ok(a) ==> a.wf_empty(),
-        /*@C14.td.wf_single*/ r matches Ok(a) ==> a.wf_single(),
-        /*@C14.td.sorted_means*/ r matches Ok(a) ==> a.sorted_means(),
-        /*@C14.td.means_in_range*/ r matches Ok(a) ==> a.means_in_range(),
     {
         let ghost b = bytes@;
         proof { lemma_ref_type_bytes(b); }
@@ -1143,13 +1166,10 @@ impl TDigestMut {
         let preamble_longs = cursor
             .read_u8()
             .vx_io("preamble_longs")?;
-        proof { lemma_skip_take(b, 0, 1); }
         let serial_version = cursor
             .read_u8()
             .vx_io("serial_version")?;
-        proof { lemma_skip_take(b, 1, 1); }
         let family_id = cursor.read_u8().vx_io("family_id")?;
-        proof { lemma_skip_take(b, 2, 1); }
         if let Err(err) = Family::TDIGEST.validate_id(family_id) {
             return if preamble_longs == 0 && serial_version == 0 && family_id == 0 {
                 Self::deserialize_compat(bytes)
@@ -1159,12 +1179,10 @@ impl TDigestMut {
         }
         ensure_serial_version_is(SERIAL_VERSION, serial_version)?;
         let k = cursor.read_u16_le().vx_io("k")?;
-        proof { lemma_skip_take(b, 3, 2); }
         if k < 10 {
             return Err(Error::deserial(format!("k must be at least 10, got {k}")));
         }
         let flags = cursor.read_u8().vx_io("flags")?;
-        proof { lemma_skip_take(b, 5, 1); }
         let is_empty = (flags & FLAGS_IS_EMPTY) != 0;
         let is_single_value = (flags & FLAGS_IS_SINGLE_VALUE) != 0;
         let expected_preamble_longs = if is_empty || is_single_value {
@@ -1177,7 +1195,6 @@ impl TDigestMut {
         cursor
             .read_u16_le()
             .vx_io("<unused>")?; // unused
-        proof { lemma_skip_take(b, 6, 2); }
         if is_empty {
             return Ok(TDigestMut::new(k));
         }
@@ -1185,12 +1202,10 @@ impl TDigestMut {
         let reverse_merge = (flags & FLAGS_REVERSE_MERGE) != 0;
         if is_single_value {
             let value = if is_f32 {
-                proof { if b.len() >= 12 { lemma_skip_take(b, 8, 4); } }
                 vx_f32_as_f64(cursor
                     .read_f32_le()
                     .vx_io("single_value")?)
             } else {
-                proof { if b.len() >= 16 { lemma_skip_take(b, 8, 8); } }
                 cursor
                     .read_f64_le()
                     .vx_io("single_value")?
@@ -1220,19 +1235,15 @@ impl TDigestMut {
         let num_centroids = cursor
             .read_u32_le()
             .vx_io("num_centroids")? as usize;
-        proof { lemma_skip_take(b, 8, 4); }
         let num_buffered = cursor
             .read_u32_le()
             .vx_io("num_buffered")? as usize;
-        proof { lemma_skip_take(b, 12, 4); }
         let (min, max) = if is_f32 {
-            proof { if b.len() >= 20 { lemma_skip_take(b, 16, 4); } if b.len() >= 24 { lemma_skip_take(b, 20, 4); } }
             (
                 vx_f32_as_f64(cursor.read_f32_le().vx_io("min")?),
                 vx_f32_as_f64(cursor.read_f32_le().vx_io("max")?),
             )
         } else {
-            proof { if b.len() >= 24 { lemma_skip_take(b, 16, 8); } if b.len() >= 32 { lemma_skip_take(b, 24, 8); } }
             (
                 cursor.read_f64_le().vx_io("min")?,
                 cursor.read_f64_le().vx_io("max")?,
@@ -1250,7 +1261,7 @@ impl TDigestMut {
         for vx_u1 in 0..num_centroids
           invariant
             b == bytes@, num_centroids == hdr_nc(b), !hdr_empty(b), !hdr_single(b), !valid_ref_verbose(b), !valid_ref_small(b),
-            cent_off(vx_u1 as int, is_f32) <= b.len(), cursor.rem() == b.skip(cent_off(vx_u1 as int, is_f32)),
+            cursor.data() == b, cursor.inv(), cursor.pos() == cent_off(vx_u1 as int, is_f32),
             centroids@.len() == vx_u1,
             /*@C13.td.centroids*/ cents_view(centroids@) == dec_cents(b, vx_u1 as int, is_f32),
             /*@C14.td.wf_weight_sum*/ centroids_weight == wsum(centroids@),
@@ -1285,14 +1296,14 @@ impl TDigestMut {
                 lemma_cents_view_push(cs0, centroids@.last(), b, vx_u1 as int, is_f32);
             }
         }
-        proof { lemma_off_zero(b, is_f32); assert(dec_buf(b, hdr_nb(b), is_f32).take(0) =~= Seq::<u64>::empty()); assert(buf_view(Seq::<f64>::empty()) =~= Seq::<u64>::empty()); }
+        proof { lemma_off_zero(b, is_f32); assert(dec_buf(b, 0, is_f32) =~= Seq::<u64>::empty()); assert(buf_view(Seq::<f64>::empty()) =~= Seq::<u64>::empty()); }
         let mut buffer = vx_alloc_f64s(num_buffered, bytes.len());
         for vx_u2 in 0..num_buffered
           invariant
             b == bytes@, num_centroids == hdr_nc(b), num_buffered == hdr_nb(b), !hdr_empty(b), !hdr_single(b), !valid_ref_verbose(b), !valid_ref_small(b),
-            0 <= buf_off(b, vx_u2 as int, is_f32) <= b.len(), cursor.rem() == b.skip(buf_off(b, vx_u2 as int, is_f32)),
+            cursor.data() == b, cursor.inv(), cursor.pos() == buf_off(b, vx_u2 as int, is_f32),
             buffer@.len() == vx_u2,
-            /*@C13.td.buffered*/ buf_view(buffer@) == dec_buf(b, hdr_nb(b), is_f32).take(vx_u2 as int),
+            /*@C13.td.buffered*/ buf_view(buffer@) == dec_buf(b, vx_u2 as int, is_f32),
             forall|i: int| 0 <= i < buffer@.len() ==> f_finite(#[trigger] buffer@[i]),
         {
             let ghost off = buf_off(b, vx_u2 as int, is_f32);
@@ -1309,17 +1320,16 @@ impl TDigestMut {
             };
             proof {
                 axiom_f64_bits_roundtrip(le64_val(b.subrange(off, off + 8))); axiom_f64_of_bits_roundtrip(value);
-                assert(f64_bits(value) == dec_buf(b, hdr_nb(b), is_f32)[vx_u2 as int]);
+                assert(f64_bits(value) == dec_val(b, off, is_f32));
             }
             check_non_nan(value, "buffered_value mean")?;
             check_finite(value, "buffered_value mean")?;
             buffer.push(value);
             proof {
-                lemma_buf_view_push(bf0, value, dec_buf(b, hdr_nb(b), is_f32), vx_u2 as int);
+                lemma_buf_view_push(bf0, value, b, vx_u2 as int, is_f32);
             }
         }
         proof {
-            assert(dec_buf(b, hdr_nb(b), is_f32).take(num_buffered as int) =~= dec_buf(b, hdr_nb(b), is_f32));
             lemma_img_wsum(centroids@);
         }
         Ok(TDigestMut::make(
@@ -1347,20 +1357,14 @@ impl TDigestMut {
         /*@C14.td.wf_weight_sum*/ r matches Ok(a) ==> a.wf_weight_sum(),
         /*@C14.td.wf_total_fits*/ r matches Ok(a) ==> a.wf_total_fits(),
         /*@C14.td.wf_buffer_bound*/ r matches Ok(a) ==> a.wf_buffer_bound(),
-        /*@C14.td.wf_empty*/ r matches Ok(a) ==> a.wf_empty(),
-        /*@C14.td.wf_single*/ r matches Ok(a) ==> a.wf_single(),
-        /*@C14.td.sorted_means*/ r matches Ok(a) ==> a.sorted_means(),
-        /*@C14.td.means_in_range*/ r matches Ok(a) ==> a.means_in_range(),
     {
         let ghost b = bytes@;
         let mut cursor = SketchSlice::new(bytes);
 
         let ty = cursor.read_u32_be().vx_io("type")?;
-        proof { lemma_skip_take(b, 0, 4); }
         match ty {
             COMPAT_DOUBLE => {
                 // compatibility with asBytes()
-                proof { if b.len() >= 12 { lemma_skip_take(b, 4, 8); } if b.len() >= 20 { lemma_skip_take(b, 12, 8); } if b.len() >= 28 { lemma_skip_take(b, 20, 8); } if b.len() >= 32 { lemma_skip_take(b, 28, 4); } }
                 let min = cursor.read_f64_be().vx_io("min")?;
                 let max = cursor.read_f64_be().vx_io("max")?;
                 proof { axiom_f64_bits_roundtrip(be64_val(b.subrange(4, 12))); axiom_f64_bits_roundtrip(be64_val(b.subrange(12, 20))); axiom_f64_of_bits_roundtrip(min); axiom_f64_of_bits_roundtrip(max); }
@@ -1375,11 +1379,11 @@ impl TDigestMut {
                 let num_centroids =
                     cursor.read_u32_be().vx_io("num_centroids")? as usize;
                 let mut total_weight = 0u64;
-                let mut centroids = vx_alloc_centroids(num_centroids, bytes.len());
+                let mut centroids = vx_alloc_centroids_ref(num_centroids, bytes.len());
                 for vx_u1 in 0..num_centroids
                   invariant
                     b == bytes@, b.len() >= 32, ref_type(b) == 1, num_centroids == refv_nc(b),
-                    32 + 16 * vx_u1 <= b.len(), cursor.rem() == b.skip(32 + 16 * vx_u1),
+                    cursor.data() == b, cursor.inv(), cursor.pos() == 32 + 16 * vx_u1,
                     centroids@.len() == vx_u1,
                     /*@C13.td.ref_verbose.centroids*/ cents_view(centroids@) == refv_cents(b, vx_u1 as int),
                     /*@C14.td.wf_weight_sum*/ total_weight == wsum(centroids@),
@@ -1387,7 +1391,6 @@ impl TDigestMut {
                 {
                     let ghost off = 32 + 16 * vx_u1;
                     let ghost cs0 = centroids@;
-                    proof { if off + 8 <= b.len() { lemma_skip_take(b, off, 8); } if off + 16 <= b.len() { lemma_skip_take(b, off + 8, 8); } }
                     let weight = vx_f64_as_u64(cursor.read_f64_be().vx_io("weight")?);
                     let mean = cursor.read_f64_be().vx_io("mean")?;
                     proof {
@@ -1419,7 +1422,6 @@ impl TDigestMut {
             COMPAT_FLOAT => {
                 // COMPAT_FLOAT: compatibility with asSmallBytes()
                 // reference implementation uses doubles for min and max
-                proof { if b.len() >= 12 { lemma_skip_take(b, 4, 8); } if b.len() >= 20 { lemma_skip_take(b, 12, 8); } if b.len() >= 24 { lemma_skip_take(b, 20, 4); } if b.len() >= 28 { lemma_skip_take(b, 24, 4); } if b.len() >= 30 { lemma_skip_take(b, 28, 2); } }
                 let min = cursor.read_f64_be().vx_io("min")?;
                 let max = cursor.read_f64_be().vx_io("max")?;
                 proof { axiom_f64_bits_roundtrip(be64_val(b.subrange(4, 12))); axiom_f64_bits_roundtrip(be64_val(b.subrange(12, 20))); axiom_f64_of_bits_roundtrip(min); axiom_f64_of_bits_roundtrip(max); }
@@ -1437,11 +1439,11 @@ impl TDigestMut {
                 let num_centroids =
                     cursor.read_u16_be().vx_io("num_centroids")? as usize;
                 let mut total_weight = 0u64;
-                let mut centroids = vx_alloc_centroids(num_centroids, bytes.len());
+                let mut centroids = vx_alloc_centroids_u16(num_centroids);
                 for vx_u2 in 0..num_centroids
                   invariant
                     b == bytes@, b.len() >= 30, ref_type(b) == 2, num_centroids == refs_nc(b),
-                    30 + 8 * vx_u2 <= b.len(), cursor.rem() == b.skip(30 + 8 * vx_u2),
+                    cursor.data() == b, cursor.inv(), cursor.pos() == 30 + 8 * vx_u2,
                     centroids@.len() == vx_u2,
                     /*@C13.td.ref_small.centroids*/ cents_view(centroids@) == refs_cents(b, vx_u2 as int),
                     /*@C14.td.wf_weight_sum*/ total_weight == wsum(centroids@),
@@ -1449,7 +1451,6 @@ impl TDigestMut {
                 {
                     let ghost off = 30 + 8 * vx_u2;
                     let ghost cs0 = centroids@;
-                    proof { if off + 4 <= b.len() { lemma_skip_take(b, off, 4); } if off + 8 <= b.len() { lemma_skip_take(b, off + 4, 4); } }
                     let weight = vx_f32_as_u64(cursor.read_f32_be().vx_io("weight")?);
                     let mean = vx_f32_as_f64(cursor.read_f32_be().vx_io("mean")?);
                     proof {
@@ -1537,6 +1538,36 @@ fn c11_roundtrip_td(a: &mut TDigestMut) -> (b: TDigestMut)
     }
 }
 #[verifier::external_body] fn c11_unreachable_td() -> TDigestMut requires false { unreachable!() }
+
+// =====================================================================================================================
+// C14 clauses the parsers do NOT establish on the current /repo, stated on wrappers (not real code) so that the parsers themselves verify
+// cleanly: each one is a finding with a replayed input.  When a parser is repaired the clause moves back into its `ensures`.
+// =====================================================================================================================
+fn c14_td_deserialize_wf(bytes: &[u8], is_f32: bool) -> (r: Result<TDigestMut, Error>)
+  ensures
+    // centroids_weight + num_buffered is not checked against u64::MAX
+    /*@C14.td.wf_total_fits*/ r matches Ok(a) ==> a.wf_total_fits(),
+    // num_buffered is not checked against 4 * capacity(k)
+    /*@C14.td.wf_buffer_bound*/ r matches Ok(a) ==> a.wf_buffer_bound(),
+    // a preLongs = 2 image with no centroid and no buffered value gives an "empty" sketch with min / max / merge direction from the image
+    /*@C14.td.wf_empty*/ r matches Ok(a) ==> a.wf_empty(),
+    // a preLongs = 2 image of total weight 1 need not have min == max == the value
+    /*@C14.td.wf_single*/ r matches Ok(a) ==> a.wf_single(),
+    // centroid means are neither checked for order nor against [min, max]
+    /*@C14.td.sorted_means*/ r matches Ok(a) ==> a.sorted_means(),
+    /*@C14.td.means_in_range*/ r matches Ok(a) ==> a.means_in_range(),
+{
+    TDigestMut::deserialize(bytes, is_f32)
+}
+fn c14_td_deserialize_compat_wf(bytes: &[u8]) -> (r: Result<TDigestMut, Error>)
+  ensures
+    /*@C14.td.wf_empty*/ r matches Ok(a) ==> a.wf_empty(),
+    /*@C14.td.wf_single*/ r matches Ok(a) ==> a.wf_single(),
+    /*@C14.td.sorted_means*/ r matches Ok(a) ==> a.sorted_means(),
+    /*@C14.td.means_in_range*/ r matches Ok(a) ==> a.means_in_range(),
+{
+    TDigestMut::deserialize_compat(bytes)
+}
 
 }
 fn main(){}
